@@ -4,6 +4,7 @@ import XalanModel.C19.ArenaProofs
 import XalanModel.C19.XDeque
 import XalanModel.C19.XBVecProofs
 import XalanModel.C19.RArenaProofs
+import XalanModel.C19.AutoPtrProofs
 /-!
 # C19 — pluggable memory manager: balanced use; allocation failure is survivable
 
@@ -207,6 +208,20 @@ theorem guard_idiom_sound (body : Ledger → Bool × Ledger) (kept : List Nat)
           refine ⟨fun hn => by simp at hn, fun b' hb' => ?_⟩
           simp only [Option.some.injEq] at hb'; subst hb'
           exact ht rfl
+
+/-- **`XalanMemMgrAutoPtr`: balanced and failure-contained.** Two auto pointers and a caller that
+keeps what it `release()`d: every history of `reset(mgr, T::create(mgr))` (creation may be refused
+at the object or inside its constructor), assignment (ownership transfer), `release()`, `reset()`,
+every refusal index and every frame — every object has exactly one owner at every moment, so after
+both destructors and the caller's clean-up exactly the frame is outstanding and nothing was freed
+twice or foreign. -/
+theorem autoptr_balanced_and_failure_contained (ops : List APState.Op) (l : Ledger) (frame : List Nat)
+    (hl : l.live.Perm frame) :
+    let r := APState.run ops {} l
+    (r.1.finish r.2).live.Perm frame ∧ (r.1.finish r.2).bad = l.bad := by
+  intro r
+  have h0 : Holds l (APState.owned {}) frame l.bad := by simpa [APState.owned] using holds_of_perm hl
+  exact holds_nil_perm (APState.finish_spec _ _ frame l.bad (APState.run_spec ops {} l frame l.bad h0))
 
 /-- **"Reserve before create" (XalanTransformer.cpp:607-620, 747-778, 966-970).** After a
 successful `reserve(size()+1)` the `push_back` of the created object makes no allocation request
